@@ -502,14 +502,39 @@ def _set_vars(fnode):
                 if is_set and n.targets[0].id not in sets:
                     sets.add(n.targets[0].id)
                     changed = True
+                # a mapping whose VALUES are sets (nx.utils.groups: value -> set of keys)
+                if isinstance(v, ast.Call) and attr_chain(v.func) in SETMAP_MAKERS and "\0map:" + n.targets[0].id not in sets:
+                    sets.add("\0map:" + n.targets[0].id)
+                    changed = True
+            elif isinstance(n, (ast.For, ast.comprehension)):
+                it = n.iter
+                if isinstance(it, ast.Call) and isinstance(it.func, ast.Attribute) and isinstance(it.func.value, ast.Name) \
+                        and "\0map:" + it.func.value.id in sets and not it.args:
+                    tgt = None
+                    if it.func.attr == "values" and isinstance(n.target, ast.Name):
+                        tgt = n.target.id
+                    elif it.func.attr == "items" and isinstance(n.target, ast.Tuple) and len(n.target.elts) == 2 \
+                            and isinstance(n.target.elts[1], ast.Name):
+                        tgt = n.target.elts[1].id
+                    if tgt and tgt not in sets:
+                        sets.add(tgt)
+                        changed = True
     return sets
 
 
 _SET_RETURNING = [set()]      # names of package functions all of whose returns are sets (filled by r7b)
 
 
+SETMAP_MAKERS = {"nx.utils.groups", "networkx.utils.groups", "groups"}
+
+
 def _is_set_expr(e, sets):
     if isinstance(e, ast.Name) and e.id in sets:
+        return True
+    if isinstance(e, ast.Subscript) and isinstance(e.value, ast.Name) and "\0map:" + e.value.id in sets:
+        return True
+    if isinstance(e, ast.Call) and isinstance(e.func, ast.Attribute) and e.func.attr == "get" and isinstance(e.func.value, ast.Name) \
+            and "\0map:" + e.func.value.id in sets:
         return True
     if isinstance(e, ast.IfExp):
         return _is_set_expr(e.body, sets) and _is_set_expr(e.orelse, sets)
